@@ -25,6 +25,7 @@ from typing import (
     Set,
     Union,
 )
+from xml.etree.ElementTree import ParseError
 from xml.sax.handler import ContentHandler, ErrorHandler
 from xml.sax.xmlreader import AttributesImpl, InputSource
 
@@ -245,7 +246,12 @@ def _lower_split_commas(input_: str) -> Set[str]:
 def _cached_from_xml_string(
     xml: str,
 ) -> List[Union[didl_lite.DidlObject, didl_lite.Descriptor]]:
-    return didl_lite.from_xml_string(xml, strict=False)
+    try:
+        return didl_lite.from_xml_string(xml, strict=False)
+    except (ParseError, didl_lite.DidlLiteException) as err:
+        # Devices send truncated or otherwise unparsable metadata.
+        _LOGGER.debug("Unparsable DIDL-Lite metadata: %s", err)
+        return []
 
 
 class ConnectionManagerMixin(UpnpProfileDevice):
